@@ -328,7 +328,12 @@ class Run(object):
         if not self.dead_in_queue:
           self.flags.add('release_cleared_expired_entries')
     m = MethodReturnMessage('ok') if kind == 'reply' else MethodReturnMessage(error=Exception('server error'))
-    r.stack.AsyncProcessResponseMessage(m)
+    try:
+      r.stack.AsyncProcessResponseMessage(m)
+    except Violation:
+      raise
+    except Exception as e:
+      self.fail('release-raised', 'delivering the answer of request %d (which hands its connection back to the pool) raised %r' % (r.id, e))
 
   def complete(self, i, kind):
     l = self.lent()
@@ -440,7 +445,7 @@ class Run(object):
         settle()
       advance(0.2)
       waiting = [r for r in self.reqs[n2:] if r.conn is None and not r.completions]
-      self.pool.Close()
+      self.close_pool()
       settle()
       advance(0.01)
       self.raise_pending()
@@ -478,9 +483,15 @@ class Run(object):
       self.drain()
     elif self.lent():
       self.flags.add('closed_with_requests_in_flight')
-    self.pool.Close()
+    self.close_pool()
     settle()
     self.second_life('Close() and Open()')
+
+  def close_pool(self):
+    try:
+      self.pool.Close()
+    except Exception as e:
+      self.fail('close-raised', 'pool Close() raised %r (%d expired entries may sit in its queue)' % (e, len(self.dead_in_queue)))
 
   def drain(self):
     for _ in range(50):       # a released connection may go straight to a request that was still queued: answer those too
